@@ -250,6 +250,9 @@ def gen(rng, tier):
         a = ["s" * (sz + j % 3) + str(j) for j in range(k)]
         b = [[j] * max(1, sz // 2 + (j % 2)) for j in range(k + rng.choice([0, 0, 1, -1]))]
         cases.append({"f": a, "t": b, "opts": rng.choice([{}, {"allow_list_edits": False}, {}])})
+    # string edits whose cost is an exact multiple of 2^8 (a cost matrix that wraps would report 0)
+    for f, t in (("x" * 256, ""), ("", "y" * 512), ({"k": "ab" * 150}, {"k": "ab" * 22}), (["q" * 256 + "r"], ["r"]), ("a" * 128 + "b", "b" + "c" * 128)):
+        cases.append({"f": f, "t": t, "opts": {}})
     # five 40-character strings replaced by five unrelated ones, and the like (cumulative cost of a few hundred)
     for i in range(10 if tier == "quick" else 80):
         k, L = rng.choice([(5, 40), (4, 60), (3, 80), (6, 30), (2, 120)])
